@@ -1,4 +1,4 @@
-import CardVerif.Spec.GinRules
+import CardModel.Spec.GinRules
 import CardVerif.Proofs.GinScoring
 /-!
 # C11 — gin ending and scoring
